@@ -4,6 +4,7 @@ matrix (/tmp/dm*.tsv).  The `needs` texts summarise the independent agents' READ
 import glob
 import json
 import os
+import re
 
 ROOT = os.path.dirname(os.path.dirname(os.path.abspath(__file__)))
 NEEDS = {
@@ -61,7 +62,10 @@ NEEDS = {
 
 def rows(pattern):
     out = []
-    for f in sorted(glob.glob(pattern)):
+    def natural(f):
+        m = re.search(r'dm(\d+)', f)
+        return (1, 0, f) if 'manual' in f else (0, int(m.group(1)) if m else 0, f)
+    for f in sorted(glob.glob(pattern), key=natural):
         for line in open(f):
             out.append(line.rstrip("\n").split("\t"))
     return out
@@ -72,9 +76,9 @@ NOTES = {
     "C01-s13": "written against 4a0877aa2, just before the F43 repair (kill() waits for the running task): on the current tree its demonstration passes with the patch too - the guard it removes is now redundant, the mutation is equivalent. Kept for the record; no check is expected to report it.",
     "C11-s9": "written before the F40 repair: its demonstration (commit fails, the writer is kept, explicit GC) now ends with 'Segment updater killed' on both trees; the mutation still manifests through a failed meta.json replacement at the end of a MERGE followed by a collection (C11 publish-fault enumeration, StorageProto_negS11)",
 }
-confirm = {r[0]: r[1:] for r in rows("/tmp/confirm.tsv")}
+confirm = {r[0]: r[1:] for r in rows(os.path.join(ROOT, "seeded", "_results", "confirm.tsv"))}
 detect = {}
-for r in rows("/tmp/dm*.tsv"):
+for r in rows(os.path.join(ROOT, "seeded", "_results", "dm*.tsv")):
     detect.setdefault(r[0], []).append({"check": r[1], "result": r[2], "violations": r[3].split("=")[1], "wall": r[4]})
 
 for d, (prop, what, needs) in NEEDS.items():
